@@ -219,6 +219,32 @@ def search(ctx):
             wsub = lp + stats.norm.logpdf((fsub.values - sub.values).ravel(), 0, sd).sum()
             if not (abs(lsub - wsub) <= 1e-9 * max(1, abs(wsub))):
                 ctx.violation("C12:subset", "lnposterior on a pixel subset %r != prior + Gaussian log-density on those pixels %r" % (lsub, wsub), info)
+            # call histories: the posterior depends on the VALUES it is given -- the same ndarray / list object evaluated again after
+            # being edited in place (an optimiser's working vector), and the same values against data whose metadata was edited
+            for cont in (np.array, list):
+                work = cont([pars[nm] for nm in names])
+                first = (model.lnprior(work), model.lnlike(work, d2), model.lnposterior(work, d2), model.forward(work, d2).values.copy())
+                for j in range(len(names)):
+                    work[j] = work[j] * (1 + 0.004 * (j + 1))
+                second = (model.lnprior(work), model.lnlike(work, d2), model.lnposterior(work, d2), model.forward(work, d2).values.copy())
+                fresh_vals = {nm: float(work[j]) for j, nm in enumerate(names)}
+                m_fresh = AlphaModel(sc, alpha=alpha, noise_sd=sd if noise_from_model else None, theory=theory, **OPT)
+                want2 = (m_fresh.lnprior(fresh_vals), m_fresh.lnlike(fresh_vals, d2), m_fresh.lnposterior(fresh_vals, d2), m_fresh.forward(fresh_vals, d2).values)
+                ctx.tried("in-place-values", (cont.__name__, nx, ny, lens, i))
+                devs = [abs(float(a) - float(b)) for a, b in zip(second[:3], want2[:3])] + [float(np.abs(second[3] - want2[3]).max())]
+                if not (max(devs) <= 1e-9 * max(1.0, abs(float(want2[2])))):
+                    ctx.violation("C12:values-edited-in-place", "the same %s object evaluated again after its entries were edited in place: (lnprior, lnlike, lnposterior, forward) deviate by %r from a fresh model at the current values" % (cont.__name__, devs),
+                                  dict(container=cont.__name__, **info))
+                    break
+            if not noise_from_model and not conflict:
+                d3 = update_metadata(data, noise_sd=sd)
+                l_a = model.lnlike(pars, d3)
+                d3.attrs['noise_sd'] = 2.0 * sd      # the same data object, metadata edited in place
+                l_b = model.lnlike(pars, d3)
+                w_b = stats.norm.logpdf((model.forward(pars, d3).values - d3.values).ravel(), 0, 2.0 * sd).sum()
+                ctx.tried("in-place-metadata", (nx, ny, i))
+                if not (abs(l_b - w_b) <= 1e-9 * max(1, abs(w_b))):
+                    ctx.violation("C12:metadata-edited-in-place", "lnlike against the same data object after its noise level was edited in place is %r, the Gaussian log-density at the new level %r (before the edit %r)" % (l_b, w_b, l_a), info)
             # outside support / invalid scatterer / constraint: -inf and no hologram computed
             cnt = Counter(data)
             em = ExactModel(sc, calc_func=cnt, noise_sd=sd, theory=Mie(), **OPT)
